@@ -3,6 +3,9 @@ import Qryn.Proofs.ReadPipe
 import Qryn.Proofs.ReadPipeH
 import Qryn.Proofs.ReadPipeHExec
 import Qryn.Proofs.ReadCensus
+import Qryn.Proofs.ReadCensusTyped
+import Qryn.Proofs.ReadStageDiscipline
+import Qryn.ReadSide.Controllers
 /-! # C12 — no query can crash, hang or leak work on the read side   (PARTIAL: bookkeeping proved, runtime explored)
 
 Property theorems only. Models: `Qryn.ReadSide` (Params.lean: controllers' parameter handling, `FixPeriodPlanner`,
@@ -59,8 +62,8 @@ def detachedModelled : List String :=
    "service/queryRangeService.go:QueryRangeService.QueryRange#2",
    "service/queryRangeService.go:QueryRangeService.QueryInstant#1",
    "service/queryRangeService.go:QueryRangeService.QueryInstant#2",
-   "service/queryRangeService.go:QueryRangeService.Tail#1",
    "service/queryRangeService.go:QueryRangeService.Tail#2",
+   "service/queryRangeService.go:QueryRangeService.Tail#3",
    "service/tempoService.go:TempoService.Tags#1",
    "service/tempoService.go:TempoService.TagsV2#1",
    "service/tempoService.go:TempoService.ValuesV2#1",
@@ -75,12 +78,14 @@ def detachedModelled : List String :=
 
 /-- **goroutine_inventory.** The set of un-recovered goroutines in the source is exactly the set analysed: a new
     `go` statement, or a recover that was removed (or turned back into the nested form that never recovers), changes
-    the regenerated list and breaks this theorem. In particular the pipeline stages (`WrapProcess#1`) and the span
-    decoder (`OutputQuery#1`) do recover. -/
+    the regenerated list and breaks this theorem. In particular the pipeline stages (`WrapProcess#1`), the span
+    decoder (`OutputQuery#1`) and — since fix 7ae3000 — the websocket tail's service goroutine (`Tail#1`, which runs the
+    planner chain once per tick) do recover. -/
 theorem goroutine_inventory :
     ((ReadSide.goroutines.filter (fun g => !g.2.2 && g.2.1 != "drain" && g.2.1 != "close")).map (·.1) = detachedModelled) ∧
     (("logql/logql_transpiler_v2/internal_planner/planner_generic.go:GenericPlanner.WrapProcess#1", "lit", true) ∈ ReadSide.goroutines) ∧
-    (("service/tempoService.go:TempoService.OutputQuery#1", "lit", true) ∈ ReadSide.goroutines) := by decide
+    (("service/tempoService.go:TempoService.OutputQuery#1", "lit", true) ∈ ReadSide.goroutines) ∧
+    (("service/queryRangeService.go:QueryRangeService.Tail#1", "lit", true) ∈ ReadSide.goroutines) := by decide
 
 /-- stops reading only when `strconv.ParseInt` fails on a string its producer formatted with `%d` -/
 def unreachableEarlyReturn : List String :=
@@ -91,6 +96,27 @@ def unreachableEarlyReturn : List String :=
     (`drainEntries`, an empty `for range`) — the exporters, `WrapProcess`, `FixPeriodPlanner`, the forwarders. -/
 theorem consumers_drain :
     ∀ c ∈ ReadSide.consumers, c.2.1 = true → c.2.2 = true ∨ c.1 ∈ unreachableEarlyReturn := by decide
+
+open Qryn.ReadSide.Pipe in
+/-- **stage_drains_regenerated** (typed; replaces the ASSUMPTION `drains` of the pipeline theorems). `Gen.StageDrains`
+    lists every loop of the read side outside the controllers that receives from a channel — the in-process stages
+    (`GenericPlanner.WrapProcess`), `FixPeriodPlanner`, the exporters of `queryRangeService.go`, the tail, the Tempo
+    forwarders, the TraceQL collector — with every exit of the loop other than "channel closed", what happens to the
+    channel on the worst path from that exit to the end of the function (a drainer is started / only a context is
+    cancelled / nothing), whether the function recovers (a recovered panic leaves the loop at any point) and whether it
+    defers a drainer of that channel before the loop. The theorem: every such loop whose receiver type is instantiated
+    anywhere in the module keeps its input consumed whichever way it leaves (`StageCode.keepsConsumed`: a deferred
+    drainer, or no recover and every explicit exit starts a drainer) — except the one loop whose early exit is
+    unreachable (`unreachableExit`). The only loop of a type that is never constructed is the unreferenced
+    `logql_transpiler_v2.MatrixStepPlanner` (it recovers and has no drainer). A stage that returns on an error without
+    draining, or a recover added without a deferred drain, breaks this theorem. -/
+theorem stage_drains_regenerated :
+    (∀ c ∈ liveStages, c.keepsConsumed = true) ∧
+    (Gen.StageDrains.stages.filter (fun g => !g.2.2.2.2.1)).map (·.1) =
+      ["logql/logql_transpiler_v2/planner_matrix_step.go:(*reader/logql/logql_transpiler_v2.MatrixStepPlanner).Process$1#1"] ∧
+    (∀ n ∈ unreachableExit, n ∈ Gen.StageDrains.stages.map (·.1)) ∧
+    liveStages.length + 2 = Gen.StageDrains.stages.length :=
+  ⟨live_stages_keep_consumed, by decide +kernel, by decide +kernel, by decide +kernel⟩
 
 /-! ### T: the fault-site census of every goroutine started under reader/ -/
 open Qryn.ReadSide.Census in
@@ -111,6 +137,44 @@ open Qryn.ReadSide.Census in
 theorem fault_site_census :
     censusMatches unrecovered reviewed = true ∧
     ReadGoroutines.externsUnion = reviewedExterns.map (·.1) := ⟨census_checked, externs_checked⟩
+
+open Qryn.ReadSide.Census in
+/-- **fault_site_census_typed.** The same on go/types + SSA + a CHA call graph (`Gen.ReadGoroutines`, typed part). For every
+    goroutine whose stack starts under reader/ — the 34 `go` statements AND the handler goroutines net/http starts
+    (every function of the `http.HandlerFunc` signature that is used as a value: registered handlers, middleware
+    closures) — the translator computes the qryn functions that run on that stack outside every DIRECT deferred recover
+    (static calls, deferred calls, interface calls resolved to the qryn types that implement the interface, function
+    values resolved by signature, closures handed to library functions; a function whose deferred callee itself calls
+    `recover()` covers what its defer statement dominates, callees included) and, in each, every SSA instruction that
+    can panic and is not discharged by a dominating guard: index / slice bounds, integer division, shift count, write to
+    a map not known to be made, type assertion without comma-ok, explicit panic, send, close, `make` by a non-length size,
+    slice→array conversion, dereference of / call through a value that comes from a map lookup or a nil-able qryn
+    result. The theorem says
+    * the regenerated functions with their sites are EXACTLY the reviewed table (`reviewedTyped`: same functions, same
+      sites in the same order, each with its `Why`; cited guards and sole-close facts are the regenerated ones);
+    * the roots — which goroutines exist, which recover, which are expanded — are exactly the reviewed ones;
+    * no goroutine the code starts itself is left unexpanded, and the only unexpanded handler goroutine is the reviewed
+      websocket tail handler (with exactly the reviewed direct callees);
+    * the calls that leave the module on those stacks are exactly the reviewed library names.
+    A new goroutine without a recover that reaches a slice index two calls deep, a recover removed or moved below the
+    first faulting statement, a new interface implementation reachable from an exporter, a new library call — each
+    changes a regenerated table and breaks this theorem until the site is reviewed. -/
+theorem fault_site_census_typed :
+    typedMatches ReadGoroutines.typedFunctions reviewedTyped = true ∧
+    rootHeads ReadGoroutines.typedRoots = reviewedRoots ∧
+    wideRootsReviewed ReadGoroutines.typedRoots = true ∧
+    goRootsExpanded ReadGoroutines.typedRoots = true ∧
+    ReadGoroutines.typedExternsUnion = reviewedTypedExterns.map (·.1) :=
+  ⟨typed_census_checked, typed_roots_checked, typed_roots_covered.1, typed_roots_covered.2, typed_externs_checked⟩
+
+open Qryn.ReadSide.Census in
+/-- the un-recovered goroutines of `goroutine_inventory` are un-recovered `go` roots of the typed census too, and the
+    typed census knows of exactly 11 more un-recovered `go` roots: the two drainers `WrapProcess#2/#3`, the
+    three `close` one-liners of the tag/value processors, the Tail handler's two websocket helpers and the process-lifetime
+    goroutines (log shipper ×2, version-cache sleeper, watchdog) — all in the reviewed table -/
+theorem typed_roots_cover_inventory :
+    (∀ n ∈ detachedModelled, n ∈ typedDetached ReadGoroutines.typedRoots) ∧
+    (typedDetached ReadGoroutines.typedRoots).length = detachedModelled.length + 11 := by decide +kernel
 
 open Qryn.ReadSide.Census in
 /-- the un-recovered goroutines of the older, narrower inventory (`goroutine_inventory`) are among those of the census -/
@@ -145,6 +209,35 @@ theorem handler_loops_read_to_close :
     ∀ l ∈ ReadGoroutines.handlerLoops,
       l.2.2.2.1 = true ∨ (l.2.2.1 = false ∧ ∀ c ∈ l.2.2.2.2.2, c ∈ harmlessLoopCalls) := by decide
 
+/-- what a handler's receive loop may reach, typed: the two response-writer wrappers of the middleware (gzip, status
+    code capture) -/
+def loopCallees : List String :=
+  ["(*reader/utils/middleware.gzipResponseWriter).Write", "(*reader/utils/middleware.responseWriterWithCode).Write"]
+
+/-- … and the library calls made from there -/
+def loopExterns : List String :=
+  ["(*compress/gzip.Writer).Write", "(net/http.Header).Set", "invoke net/http.ResponseWriter.Header",
+   "invoke net/http.ResponseWriter.Write", "encoding/json.Marshal", "fmt.Println"]
+
+/-- **handler_loops_no_fault_in_reach** (typed; closes the gap of `handler_loops_read_to_close`, which could not see
+    inside the callees of a loop body). For every loop of reader/controller that receives from a channel (natural loops
+    of the SSA control-flow graph; `for x := range ch` and `for { select { case x := <-ch … } }`): either the function
+    leaves a drain behind (a deferred function — or a goroutine it starts — that itself receives in a loop), or
+    * the loop has no exit other than "the channel is closed" (no return, break, goto, panic), AND
+    * no instruction INSIDE the loop can panic (after discharge by dominating guards), AND
+    * every qryn function reachable from a call inside the loop — transitively, through interface calls and function
+      values — is one of the two response-writer wrappers, none of which has a panic site, AND
+    * the library calls made from the loop and from those functions are the response writer, gzip, `json.Marshal`,
+      `fmt.Println`.
+    So no statement and no recovered panic takes a handler out of its loop before the producer has closed the channel,
+    two calls deep included. (The Tempo trace handler renders stored spans in its loop — index sites in
+    `SpanToJSONSpan`, dereferences of received values — and is in the first class: it defers a drain.) -/
+theorem handler_loops_no_fault_in_reach :
+    ∀ l ∈ ReadGoroutines.typedHandlerLoops,
+      l.2.2.2.1 = true ∨
+      (l.2.2.1 = false ∧ l.2.2.2.2.1 = [] ∧ l.2.2.2.2.2.2.1 = [] ∧
+       (∀ c ∈ l.2.2.2.2.2.1, c ∈ loopCallees) ∧ (∀ e ∈ l.2.2.2.2.2.2.2, e ∈ loopExterns)) := by decide +kernel
+
 /-- handlers that answer without touching the database or speak another protocol (websocket tail) -/
 def staticHandlers : List String :=
   ["MiscController.Ready", "MiscController.Config", "MiscController.Rules", "MiscController.Metadata",
@@ -153,6 +246,24 @@ def staticHandlers : List String :=
 /-- **handlers_recover.** Every HTTP handler of the read side that runs a query starts with
     `defer tamePanic(w, r)`: a fault in the handler goroutine becomes a 500, never a dropped connection. -/
 theorem handlers_recover : ∀ h ∈ ReadSide.handlers, h.2 = true ∨ h.1 ∈ staticHandlers := by decide
+
+/-- handler goroutines without a recover of their own, typed: the middleware closures (they run BEFORE the controller's
+    `defer tamePanic`; their sites are in the reviewed table), the two static Prometheus stubs, the echo endpoint and the
+    websocket tail -/
+def unrecoveredHandlerRoots : List String :=
+  ["controller/miscController.go:MiscController.Metadata", "controller/miscController.go:MiscController.Buildinfo",
+   "controller/queryRangeController.go:QueryRangeController.Tail", "controller/tempoController.go:TempoController.Echo",
+   "utils/middleware/accept_encoding.go:reader/utils/middleware.AcceptEncodingMiddleware$1",
+   "utils/middleware/basic_auth.go:reader/utils/middleware.BasicAuthMiddleware$1$1",
+   "utils/middleware/cors_middleware.go:reader/utils/middleware.CorsMiddleware$1$1",
+   "utils/middleware/logging.go:reader/utils/middleware.LoggingMiddleware$1$1"]
+
+/-- **handlers_recover_typed.** Of the functions of the `http.HandlerFunc` signature under reader/ that are used as values
+    (what net/http can run on a connection goroutine), every one has a direct deferred recover in its entry function —
+    and, by `fault_site_census_typed`, no fault site before it — except the listed ones. (The syntactic
+    `handlers_recover` lists four more: `Ready`, `Config`, `Rules`, `NotImplemented` are never registered.) -/
+theorem handlers_recover_typed :
+    ∀ r ∈ ReadGoroutines.typedRoots, r.2.1 = "handler" → r.2.2.1 = true ∨ r.1 ∈ unrecoveredHandlerRoots := by decide +kernel
 
 /-! ## the detached goroutines cannot fault -/
 
@@ -248,6 +359,72 @@ theorem params_total :
     · simp only []
       split <;> rfl
 
+/-- every step outcome sequence of a handler that defers `tamePanic` ends in an HTTP response, provided the status classes
+    written next to the steps are responses -/
+theorem runSteps_answered (steps : List (Resp × Out)) (h : steps.all (fun s => s.1.answered) = true) :
+    (runSteps true steps).answered = true := by
+  induction steps with
+  | nil => rfl
+  | cons s rest ih =>
+    obtain ⟨c, o⟩ := s
+    simp only [List.all_cons, Bool.and_eq_true] at h
+    cases o with
+    | ok => exact ih h.2
+    | err => exact h.1
+    | fault => rfl
+
+/-- **handler_status_codes_as_modelled** (T). The status codes of the error answers of every handler of reader/controller
+    (`PromError(N, …)`, `defaultError(w, N, …)`; literals — anything else is a GENFAIL), in source order, are the ones the
+    controller models use, and every one of them is a 4xx or a 5xx. -/
+theorem handler_status_codes_as_modelled :
+    ReadSide.handlerCodes = modelledCodes ∧
+    (∀ h ∈ ReadSide.handlerCodes, ∀ c ∈ h.2, classOfCode c = .err4xx ∨ classOfCode c = .err5xx) := by decide
+
+/-- **params_total_all.** The remaining registered handlers of the read side — Loki labels / label values / series,
+    Prometheus labels / label values / series / metadata / instant query, Tempo search (tags and TraceQL) / tags v1, v2 /
+    tag values v1, v2 / echo, Pyroscope ProfileTypes / LabelNames / LabelValues / SelectMergeStacktraces / SelectSeries /
+    SelectMergeProfile / Series / AnalyzeQuery / GetProfileStats / Settings / render-diff, the static answers: whatever
+    each parameter parses to (absent, rejected, any int64), whatever each step of the handler does (returns, returns an
+    error, FAULTS), the request ends in an HTTP response — result, 4xx or 5xx — never in a dropped connection. -/
+theorem params_total_all :
+    (∀ pl fo s e sv, (lokiLabels pl fo s e sv).answered = true) ∧
+    (∀ pl fo s e ne sv, (lokiValues pl fo s e ne sv).answered = true) ∧
+    (∀ pl fo s e nm sv, (lokiSeries pl fo s e nm sv).answered = true) ∧
+    (∀ pl fo sv, (promLabels pl fo sv).answered = true) ∧
+    (∀ pl pa ne sv s0, (promLabelValues pl pa ne sv s0).answered = true) ∧
+    (∀ pl fo f2 sv, (promSeries pl fo f2 sv).answered = true) ∧
+    (∀ pl, (promMetadata pl).answered = true) ∧
+    (∀ pl fo t qe nq ex wr, (promQueryInstant pl fo t qe nq ex wr).answered = true) ∧
+    (∀ pl sv, (tempoTagsV1 pl sv).answered = true) ∧
+    (∀ pl s e v1 v2 m, (tempoTagsV2 pl s e v1 v2 m).answered = true) ∧
+    (∀ pl mi ma li s e hq ql tg, (tempoSearch pl mi ma li s e hq ql tg).answered = true) ∧
+    (staticAnswer.answered = true) ∧
+    (∀ pa sv ma, (profEndpoint pa sv ma).answered = true) ∧
+    (∀ sv ma, (profNoBody sv ma).answered = true) ∧
+    (∀ mi a b c d sv, (profRenderDiff mi a b c d sv).answered = true) := by
+  refine ⟨?_, ?_, ?_, ?_, ?_, ?_, ?_, ?_, ?_, ?_, ?_, rfl, ?_, ?_, ?_⟩ <;> intros <;> exact runSteps_answered _ rfl
+
+/-- **tail_upgrade_total_partial.** The websocket tail up to the upgrade: plugins, the `query` parameter, the service call
+    (`logql_transpiler_v2.Transpile` runs here, on the handler goroutine), the upgrade. The handler has NO
+    `defer tamePanic`, so the statement needs the hypothesis that neither the plugins nor the service call FAULT (they
+    may fail): then every outcome is an HTTP response — 500, 200 with an empty body (empty query / refused query), the
+    upgrader's 400, or the 101 upgrade. That the parser and planner constructors do not fault is explored (typed
+    census: `reviewedWide`; 200 000 generated and mutated queries), not proved. -/
+theorem tail_upgrade_total_partial (plugins svc : Out) (queryEmpty upgradeOk : Bool)
+    (hp : plugins ≠ .fault) (hs : svc ≠ .fault) : (lokiTail plugins queryEmpty svc upgradeOk).answered = true := by
+  cases plugins <;> cases svc <;> cases queryEmpty <;> cases upgradeOk <;> first | rfl | contradiction
+
+/-- the full-strength statement for the tail is false: a fault in the service call on the un-recovered handler goroutine
+    drops the connection (net/http's recover keeps the process alive) -/
+def tail_upgrade_total_full : Prop :=
+  ∀ (plugins svc : Out) (queryEmpty upgradeOk : Bool), (lokiTail plugins queryEmpty svc upgradeOk).answered = true
+
+theorem tail_upgrade_total_counterexample : ¬ tail_upgrade_total_full := by
+  intro h
+  have := h .ok .fault false true
+  revert this
+  decide
+
 /-! ## the pinned tree violates the statement (witnesses kept) -/
 
 /-- A24 [observed]: `rate({a="b"}[1m])`, `step=0`, one result row → division by zero in the detached goroutine
@@ -304,22 +481,26 @@ theorem matrix_step_loop (step lim i : Int) :
 /-! ## the channel pipeline terminates -/
 open Qryn.ReadSide.Pipe
 
-/-- **pipeline_terminates.** For every number of stages, every result set (batches with arbitrary futures: how many
-    batches each one produces at each later stage, where an error strikes), every closing output of the stages, and
-    every interleaving of the goroutines together with the environment moves (context cancelled because the limit was
-    reached or the client went away, database failing midway): as long as every stage keeps its input consumed,
+/-- **pipeline_terminates.** For every pipeline ASSEMBLED FROM THE REGENERATED STAGES (`cs`: any number of them, in any
+    order, each one of `liveStages` — the model reads each stage's `drains` flag off what `Gen.StageDrains` says about
+    its exits, `drainsOf`), every result set (batches with arbitrary futures: how many batches each one produces at each
+    later stage, where an error strikes), every closing output of the stages, and every interleaving of the goroutines
+    together with the environment moves (context cancelled because the limit was reached or the client went away,
+    database failing midway):
     (a) every move strictly decreases `measure`, so every schedule is finite, at most `measure` moves long;
     (b) a state that is not final has a move — no send blocks forever, no goroutine waits for ever;
     (c) hence a schedule can only stop in the final state (every goroutine returned, every channel closed),
-        and the final state is reachable from every reachable state. -/
-theorem pipeline_terminates (n : Nat) (hn : 0 < n) (rows : List Item) (flush : Nat → List Item) (S : Sys)
-    (hr : Run (start n rows flush (fun _ => true)) S) :
+        and the final state is reachable from every reachable state.
+    There is no hypothesis about the stages' behaviour after an error any more: it is `stage_drains_regenerated`. -/
+theorem pipeline_terminates (cs : List StageCode) (hn : 0 < cs.length) (hreg : ∀ c ∈ cs, c ∈ liveStages)
+    (rows : List Item) (flush : Nat → List Item) (S : Sys)
+    (hr : Run (startC cs rows flush) S) :
     (∀ S', Step S S' → S'.measure < S.measure) ∧
-    S.measure ≤ (start n rows flush (fun _ => true)).measure ∧
+    S.measure ≤ (startC cs rows flush).measure ∧
     (¬ Final S → ∃ S', Step S S') ∧
     ((∀ S', ¬ Step S S') → Final S) ∧
     (∃ S', Run S S' ∧ Final S') := by
-  have hI : Inv S := run_inv (start_inv n hn rows flush) hr
+  have hI : Inv S := run_inv (startC_inv cs hn hreg rows flush) hr
   refine ⟨fun S' h => step_measure h, run_measure hr, fun hF => progress hI hF, ?_, reaches_final S hI⟩
   intro hstuck
   by_cases hF : Final S
@@ -363,23 +544,28 @@ theorem pipeline_without_drain_deadlocks :
 
 /-- **no_blocked_sender.** The handler is part of the transition system (`PipelineH.lean`): it may leave its copy loop
     at ANY point (`stop`: client gone, write error, limit reached), the request context may be cancelled at any point
-    (`envCancel`). For every pipeline length, every result set (batches with arbitrary futures), every closing output
-    and every interleaving: under the code's convention — the handler's code keeps the channel drained
-    (`onStop = drain`: qryn, by `handler_loops_read_to_close` — a loop that is never left early, or a deferred drainer), OR it cancels a context on which every producer's send
-    selects (`onStop = cancel ∧ sel`) — and with every stage keeping its input consumed (`consumers_drain`),
+    (`envCancel`). For every pipeline assembled from the regenerated stages (`cs`, each one of `liveStages`; the model
+    interprets each stage's regenerated exits, `drainsOf`), every result set (batches with arbitrary futures), every
+    closing output and every interleaving: under the handler's convention — its code keeps the channel drained
+    (`onStop = drain`: qryn, by `handler_loops_read_to_close` / `handler_loops_no_fault_in_reach` — a loop that is never
+    left early, or a deferred drainer), OR it cancels a context on which every producer's send selects
+    (`onStop = cancel ∧ sel`) —
     (a) every move strictly decreases `measure`: every schedule is finite;
     (b) a state that is not final has a move: no send blocks for ever, wherever the handler stopped;
     (c) a schedule can only end in the final state — scanner, every stage and the exporter returned, every channel
-        closed, the handler out of its loop — and that state is reachable from every reachable state. -/
-theorem no_blocked_sender (n : Nat) (hn : 0 < n) (rows : List Item) (flush : Nat → List Item)
+        closed, the handler out of its loop — and that state is reachable from every reachable state.
+    What used to be the free assumption "every stage keeps its input consumed" is now the regenerated fact
+    `stage_drains_regenerated`; `undrained_stage_never_terminates` is the counterexample for a stage that does not. -/
+theorem no_blocked_sender (cs : List StageCode) (hn : 0 < cs.length) (hreg : ∀ c ∈ cs, c ∈ liveStages)
+    (rows : List Item) (flush : Nat → List Item)
     (c : OnStop) (sel : Bool) (hconv : c = .drain ∨ (c = .cancel ∧ sel = true)) (S : HSys)
-    (hr : HRun (hstart n rows flush (fun _ => true) c sel) S) :
+    (hr : HRun (hstartC cs rows flush c sel) S) :
     (∀ S', HStep S S' → S'.measure < S.measure) ∧
-    S.measure ≤ (hstart n rows flush (fun _ => true) c sel).measure ∧
+    S.measure ≤ (hstartC cs rows flush c sel).measure ∧
     (¬ HFinal S → ∃ S', HStep S S') ∧
     ((∀ S', ¬ HStep S S') → HFinal S) ∧
     (∃ S', HRun S S' ∧ HFinal S') := by
-  have hI : HInv S := hrun_inv (hstart_inv n hn rows flush c sel) hr
+  have hI : HInv S := hrun_inv (hstartC_inv cs hn hreg rows flush c sel) hr
   have hc : Convention S := by
     have := hrun_code hr
     unfold Convention
@@ -391,6 +577,80 @@ theorem no_blocked_sender (n : Nat) (hn : 0 < n) (rows : List Item) (flush : Nat
   · exact hF
   · obtain ⟨S', hs⟩ := hprogress hI hc hF
     exact absurd hs (hstuck S')
+
+/-- a stage as the self-test writes it: `if err != nil { return }` inside `for entries := range in`, no drainer -/
+def returnsWithoutDraining : StageCode := ⟨"stage that returns on an error without draining", false, false, [.none]⟩
+
+/-- … and a stage that gained a recover but no deferred drainer (every explicit exit drains; the recovered panic does not) -/
+def recoversWithoutDrain : StageCode := ⟨"stage with a recover and no deferred drainer", true, false, [.drain]⟩
+
+/-- **undrained_stage_never_terminates** (counterexample, general): once a first stage that does not keep its input
+    consumed (`drains = false`, what `drainsOf` computes for `returnsWithoutDraining`) has left its loop while the scanner
+    still has a batch to send, and no producer selects on the context, then in EVERY continuation — whatever the handler
+    does: it may drain, cancel, leave — the scanner still holds that batch: the final state is never reached. -/
+theorem undrained_stage_never_terminates (S S' : HSys) (hU : Undrained S) (hr : HRun S S') :
+    S'.sys.src ≠ [] ∧ ¬ HFinal S' :=
+  ⟨(hrun_undrained hU hr).pending, undrained_not_final (hrun_undrained hU hr)⟩
+
+/-- the full-strength statement without the regenerated discipline — false -/
+def any_stage_terminates_full : Prop :=
+  ∀ (cs : List StageCode) (rows : List Item) (flush : Nat → List Item) (S : HSys), 0 < cs.length →
+    HRun (hstartC cs rows flush .drain false) S → ∃ S', HRun S S' ∧ HFinal S'
+
+/-- **any_stage_terminates_counterexample**: the pipeline [a stage that returns on an error without draining] under a
+    handler that DOES drain; the first batch is an error entry, a second batch is on its way. After the stage has
+    received the first batch the scanner is blocked in its send for ever (kernel-checked: `drainsOf` of that stage code
+    is `false`, the state is `Undrained`). The same for a stage that recovers without a deferred drainer. -/
+theorem any_stage_terminates_counterexample : ¬ any_stage_terminates_full := by
+  intro hfull
+  let e : Item := .mk true []
+  let b : Item := .mk false []
+  let S0 := hstartC [returnsWithoutDraining] [e, b] (fun _ => []) .drain false
+  let T : Sys := { S0.sys with src := [b], stg := upd S0.sys.stg 0 ((S0.sys.stg 0).recv e) }
+  have st1 : HStep S0 { S0 with sys := T } :=
+    HStep.work S0 T (Step.srcSend S0.sys e [b] rfl (by decide) ⟨rfl, rfl, Or.inl rfl⟩)
+      (fun _ => Or.inr rfl)
+  have hU : Undrained { S0 with sys := T } := by
+    refine ⟨by decide, ?_, ?_, ?_, rfl⟩
+    · simp [T]
+    · simp [T, S0, hstartC, hstart, start, upd, Stg.recv, e]
+    · simp [T, S0, hstartC, hstart, start, upd, Stg.recv, e, drainsOf, returnsWithoutDraining, StageCode.keepsConsumed]
+  obtain ⟨S', hr', hF⟩ := hfull [returnsWithoutDraining] [e, b] (fun _ => []) _ (by decide) (HRun.step st1 (HRun.refl _))
+  exact (undrained_stage_never_terminates _ S' hU hr').2 hF
+
+/-- **stage_schedule_sound.** What the compiled model answers in the `stagedrain` correspondence stream (`c12sdrain`:
+    fake upstream → the real aggregator stage over `GenericPlanner.WrapProcess` → a consumer that reads to the end) is a
+    statement about the transition system: the state the schedule ends in is reachable; verdict `final` ⇒ every goroutine
+    has returned; verdict `blocked` ⇒ the state is `Undrained`, so no continuation reaches the final state. -/
+theorem stage_schedule_sound (k fuel : Nat) (S : HSys) :
+    HRun S (hsched k fuel S 0).1 ∧
+    (verdictS (hsched k fuel S 0).1 = "final" → HFinal (hsched k fuel S 0).1) ∧
+    (verdictS (hsched k fuel S 0).1 = "blocked" → ∀ S', HRun (hsched k fuel S 0).1 S' → ¬ HFinal S') := by
+  refine ⟨hsched_run k fuel S 0, ?_, ?_⟩
+  · intro hv
+    apply hfinalB_sound
+    unfold verdictS at hv
+    split at hv
+    · assumption
+    · split at hv <;> simp at hv
+  · intro hv S' hr
+    have hb : undrainedB (hsched k fuel S 0).1 = true := by
+      unfold verdictS at hv
+      split at hv
+      · simp at hv
+      · split at hv
+        · assumption
+        · simp at hv
+    exact (undrained_stage_never_terminates _ S' (undrainedB_sound _ hb) hr).2
+
+example : drainsOf [returnsWithoutDraining] 0 = false ∧ drainsOf [recoversWithoutDrain] 0 = false := by decide
+-- the regenerated WrapProcess loop: every schedule of the stream ends with everything returned; a stage without drainer blocks
+example : stageRun wrapProcessCode [false, true, false, false] = "final" := by decide +kernel
+example : stageRun returnsWithoutDraining [false, true, false, false] = "blocked" := by decide +kernel
+-- (an error in the LAST batch blocks nobody; the model's `Final` also asks that somebody has seen the input closed: "open")
+example : stageRun returnsWithoutDraining [false, false, true] = "open" := by decide +kernel
+example : wrapProcessCode.keepsConsumed = true := by decide +kernel
+example : returnsWithoutDraining ∉ liveStages ∧ recoversWithoutDrain ∉ liveStages := by decide +kernel
 
 /-- **abandoned_exporter_never_returns.** The counter-pattern in general: once the handler has left its loop, its
     code does not drain and the producers do not watch the context (`onStop ≠ drain`, `sel = false`: seeded change
